@@ -1138,8 +1138,10 @@ Example C10_src_enum_order_witness :
   (ts <- enum_targets (enum_order (t_fields (mkc "C" [mkf "a" (TOpt false (TLeaf t_color)); mkf "b" (TLeaf t_color)] MapNone))) ;;
    apply_enums ts doc_order doc_order) = Raise KeyError /\
   trusted_cls (fun _ _ => true) (fun _ _ => Raise Unmodelled) env_order 3 Nested (s2p "C")
-              (PDict (map (fun p => (PStr (fst p), snd p)) doc_order)) = Raise TypeError.
+              (PDict (map (fun p => (PStr (fst p), snd p)) doc_order)) = Raise KeyError.
 Proof. vm_compute. repeat split; reflexivity. Qed.
+(* (the third conjunct used to read Raise TypeError: Ser/Trusted.v's trusted_cls iterated in declaration order;
+   the model has since been repaired to use the source's order, so it now raises KeyError as typedpy does) *)
 
 (* (2) the side condition on TUnion is needed: AnyOf[None, String] written as a TUnion (the harness writes it
    as TOpt) is "not nested" for the model and "nested" for the source *)
